@@ -288,6 +288,10 @@ class PCtx:
             x = t.args[0]
             if x.op == 'const':
                 return Poly.const(tm.sval(x) if op == 'sitofp' else tm.cval(x))
+            if x.w == 1:
+                r = self.decide(x)
+                if r is not None:
+                    return Poly.const((1 if op == 'uitofp' else -1) if r else 0)
             return self._fatom(op, ('T', x))
         # anything else (bit tricks on floats, calls ...) is an opaque atom keyed by the term
         return self._fatom('t', ('T', t))
@@ -907,8 +911,13 @@ def _sphere_point(rng, n):
     """a rational point of the unit sphere in n dimensions (inverse stereographic projection of a rational point)"""
     while True:
         t = [rng.choice(_POOL) for _ in range(n - 1)]
-        if rng.random() < 0.15:
+        r_ = rng.random()
+        if r_ < 0.15:
             t = [Fraction(0)] * (n - 1)
+        elif r_ < 0.45 and n > 2:
+            # a point with only two non-zero coordinates (keeps square roots of 1 - c^2 rational)
+            keep = rng.randrange(n - 1)
+            t = [x if i == keep else Fraction(0) for i, x in enumerate(t)]
         s2 = sum(x * x for x in t)
         pt = [2 * x / (s2 + 1) for x in t] + [(s2 - 1) / (s2 + 1)]
         rng.shuffle(pt)
